@@ -281,4 +281,75 @@ def standin_direct_api(tier, seed):
                 bound=dict(ages=ages, first_batch_len=n1, second_batch_len=2, exhaustive=True))
 
 
-STANDINS = [standin_direct_api, standin_visit_tables, standin_malformed]
+def standin_joint_tables(tier, seed):
+    """joint (visits + one event) tables: every row order of a small table is accepted iff the table is consistent (event
+    at or after the individual's last visit when it is observed, one event time / indicator per individual), with the same
+    dataset for every order; an inconsistent one is refused with LeaspyDataInputError in every row order."""
+    import itertools
+    import numpy as np
+    import pandas as pd
+    from leaspy.io.data import Data, Dataset
+    from leaspy.exceptions import LeaspyDataInputError
+    violations, evals, distinct = [], 0, set()
+
+    def table(ev_b, obs_b=True, ev_a=70.0, inconsistent_time=False):
+        rows = [("A", 60.0, 0.2, ev_a, True), ("A", 65.0, 0.3, ev_a, True),
+                ("B", 65.0, 0.25, ev_b, obs_b), ("B", 70.0, 0.35, ev_b, obs_b), ("B", 75.0, 0.45, ev_b + (1.0 if inconsistent_time else 0.0), obs_b)]
+        return pd.DataFrame(rows, columns=["ID", "TIME", "Y", "EVENT_TIME", "EVENT_BOOL"])
+    cases = [("event after the last visit", table(76.0), True),
+             ("event exactly at the last visit", table(75.0), True),
+             ("censoring before the last visit (prediction set-up: accepted with a warning)", table(71.0, obs_b=False), True),
+             ("observed event before the last visit", table(71.0), False),
+             ("observed event before the first visit", table(50.0), False),
+             ("two different event times for one individual", table(76.0, inconsistent_time=True), False)]
+    orders = list(itertools.permutations(range(5))) if tier == "thorough" else list(itertools.permutations(range(5)))[::5]
+    for label, tab, valid in cases:
+        ref = None
+        for perm in orders:
+            df = tab.iloc[list(perm)].reset_index(drop=True)
+            before = df.copy(deep=True)
+            evals += 1
+            distinct.add((label, perm))
+            try:
+                import warnings
+                with warnings.catch_warnings():
+                    warnings.simplefilter("ignore")
+                    data = Data.from_dataframe(df, data_type="joint")
+                    ds = Dataset(data)
+                res = (tuple(ds.indices), ds.timepoints.tolist(), ds.event_time.tolist(), ds.event_bool.tolist())
+                raised = None
+            except LeaspyDataInputError:
+                raised = "LeaspyDataInputError"
+            except Exception as e:
+                raised = f"{type(e).__name__}: {str(e)[:60]}"
+            if not before.equals(df):
+                violations.append(dict(key=f"joint table ({label}): the caller's table was modified"))
+                break
+            if valid and raised is not None:
+                violations.append(dict(key=f"joint table ({label}): a consistent table is refused ({raised}) for some row order", order=list(perm)))
+                break
+            if not valid and raised is None:
+                violations.append(dict(key=f"joint table ({label}): accepted for some row order instead of LeaspyDataInputError", order=list(perm)))
+                break
+            if not valid and raised != "LeaspyDataInputError":
+                violations.append(dict(key=f"joint table ({label}): {raised} instead of LeaspyDataInputError", order=list(perm)))
+                break
+            if valid:
+                first_seen = tuple(dict.fromkeys(df["ID"]))
+                canon = (res[0] != first_seen, )
+                key_res = (sorted(zip(res[0], map(tuple, res[1]), map(tuple, res[2]), map(tuple, res[3]))))
+                if res[0] != first_seen:
+                    violations.append(dict(key=f"joint table ({label}): individuals {res[0]} not in order of first appearance {first_seen}"))
+                    break
+                if ref is None:
+                    ref = key_res
+                elif key_res != ref:
+                    violations.append(dict(key=f"joint table ({label}): the dataset depends on the row order", order=list(perm)))
+                    break
+    uniq = {v["key"]: v for v in violations}
+    return dict(evaluations=evals, distinct_nontrivial=len(distinct), rule="one evaluation = one row order of one small joint table through Data.from_dataframe(data_type='joint') and Dataset",
+                samples=[dict(case=cases[0][0], rows=cases[0][1].values.tolist()[:3])], violations=list(uniq.values())[:60],
+                bound=dict(cases=len(cases), row_orders=len(orders), exhaustive=(tier == "thorough")))
+
+
+STANDINS = [standin_direct_api, standin_joint_tables, standin_visit_tables, standin_malformed]
